@@ -37,10 +37,13 @@ pub fn maps_tokens(l: &mut Line, w: &World) {
     }
 }
 
+/// stands for "128 bytes into the first anonymous mapping" (its address is known only once the target runs)
+pub const CRASH_IP_ANON0_PLUS_128: u64 = u64::MAX - 0x80;
+
 pub fn gen_plan(rng: &mut Rng, focus: &str, tier: &str, case_idx: u64) -> Plan {
     let force_k1 = focus == "c05" && case_idx == 0;   // the recorded finding K1 is exercised on every run
     // one fixed C06 shape per run: every chunk-boundary offset of the stack pointer among the threads that the size limit shortens
-    let boundary = (focus == "c06" && case_idx == 1) || (focus == "c07" && case_idx == 2);   // (C07: shortened stacks are regions of the memory list too)
+    let boundary = (focus == "c06" && case_idx == 1) || (focus == "c07" && case_idx == 2) || (focus == "c12" && case_idx == 1);   // (C12: shortened stacks are sanitised relative to their shortened start)   // (C07: shortened stacks are regions of the memory list too)
     // one fixed C20 shape per run: sanitising on, the principal mapping writable and not executable, referenced from stack words only
     // a third fixed C20 shape: the crash context's stack pointer lies in no mapping (nothing within the guard distance either)
     // and its instruction pointer outside the principal mapping: the crash thread's stack cannot be located, which is a
@@ -71,7 +74,7 @@ pub fn gen_plan(rng: &mut Rng, focus: &str, tier: &str, case_idx: u64) -> Plan {
         // (C04: a name that is not valid UTF-8, or empty, does not make its thread any less of a thread)
         name: if focus == "c04" && i % 3 == 1 { Some(if i % 2 == 1 { vec![b'w', 0xff, 0xfe, b'k'] } else { vec![] }) } else { Some(format!("t{i}").into_bytes()) },
         // a stack pointer whose low 32 bits are all zero or all one (multiples of 4 GiB): still an ordinary thread
-        at: if focus == "c04" && i == 0 && rng.chance(1, 3) { Some(*rng.pick(&[0x7_0000_0000u64, 0x12_0000_0000, 0x6_ffff_ffff, 0x3_0000_0000 - 1])) } else { None } }).map(|mut t| { if t.at.is_some() && t.kind == Kind::NullSp { t.kind = Kind::Block; } t }).collect();
+        at: if (focus == "c04" && i == 0 && rng.chance(1, 3)) || (focus == "c06" && case_idx == 4 && i == 0) /* (C06: a stack in the mapping right below the executable) */ { Some(*rng.pick(&[0x7_0000_0000u64, 0x12_0000_0000, 0x6_ffff_ffff, 0x3_0000_0000 - 1])) } else { None } }).map(|mut t| { if t.at.is_some() && t.kind == Kind::NullSp { t.kind = Kind::Block; } t }).collect();
     let mut lines = vec!["anon 3 rwx 1".to_string(), "anon 2 rw- 0".to_string(), "anon 1 r-x 1".to_string()];
     let napp = if focus == "c07" { rng.below(5) as usize } else { rng.below(2) as usize };
     for _ in 0..napp {
@@ -132,8 +135,8 @@ pub fn configure(rng: &mut Rng, plan: &Plan, target: &Target) -> Configured {
         // the context's own thread-id field is not what decides who is blamed (the id given to the writer is):
         // unset, another live thread, or arbitrary in half of the cases
         match rng.below(6) { 0 => cc.inner.tid = 0, 1 if nth > 0 => cc.inner.tid = target.tids[rng.below(nth as u64) as usize], 2 => cc.inner.tid = (rng.next() >> 40) as i32, _ => {} }
-        let (sp, ip) = if plan.skip == 6 { (0x2000u64, anon[2] + 0x10) } else { (sp, ip) };
-        let ip = plan.crash_ip.unwrap_or(ip);
+        let (sp, ip) = if plan.skip == 6 { (0x2000u64, anon[2] + 0x10) } else if plan.skip == 9 { (anon[2] + 0x100, anon[1] + 0x90) } else { (sp, ip) };
+        let ip = match plan.crash_ip { Some(x) if x == CRASH_IP_ANON0_PLUS_128 => anon[0] + 128, Some(x) => x, None => ip };
         cc.inner.context.uc_mcontext.gregs[libc::REG_RSP as usize] = sp as i64;
         cc.inner.context.uc_mcontext.gregs[libc::REG_RIP as usize] = ip as i64;
         let copy = CrashContext { inner: cc.inner.clone() };
@@ -148,6 +151,7 @@ pub fn configure(rng: &mut Rng, plan: &Plan, target: &Target) -> Configured {
         writer.skip_stacks_if_mapping_unreferenced();
         if plan.skip == 1 { principal = Some(match rng.below(3) { 0 => anon[0] + 0x100, 1 => anon[1] + 0x80, _ => target.fact_hex("blk") }); }
         if plan.skip == 2 { principal = Some(0x10); }
+        if plan.skip == 9 { principal = Some(anon[1] + 0x80); }
         if plan.skip == 8 { principal = Some(anon[0] + 0x1100); }   // inside the first anonymous mapping, in its second page
         if plan.skip == 4 { principal = Some(anon[1] + 0x80); }
         if plan.skip == 5 { principal = Some(0x2000_0080); }
@@ -195,7 +199,13 @@ pub fn dump_once_failing(cfg: &mut Configured, pid: i32, fail_at: Option<usize>)
     let mut dest = crate::c09::RecDest::new(Vec::new(), 0, false); dest.fail_at = fail_at;
     let writer = &mut cfg.writer;
     let _ticker = if INTERRUPT_DUMPER.load(std::sync::atomic::Ordering::SeqCst) { Ticker::start() } else { None };
-    let (res, world, events) = with_hooks_ranges(pid, cfg.blamed, true, cfg.ranges.clone(), None, || quiet_catch(std::panic::AssertUnwindSafe(|| writer.dump(&mut dest).map_err(|e| format!("{e:?}")))));
+    let (blamed, ranges) = (cfg.blamed, cfg.ranges.clone());
+    let mut go = || with_hooks_ranges(pid, blamed, true, ranges.clone(), None, || quiet_catch(std::panic::AssertUnwindSafe(|| writer.dump(&mut dest).map_err(|e| format!("{e:?}")))));
+    let (res, world, events) = if SANDBOXED_DUMPER.load(std::sync::atomic::Ordering::SeqCst) {
+        // the whole request (attach, reads, detach) and the harness's capture inside the hook run in one thread of their own
+        let mut go = std::panic::AssertUnwindSafe(&mut go);
+        std::thread::scope(|s| s.spawn(move || { struct S<T>(T); unsafe impl<T> Send for S<T> {} let _ = &go; let ok = install_read_refusing_seccomp_filter(); let r = (go.0)(); (r, ok) }).join()).map(|(r, _ok)| r).map_err(|_| "sandboxed dump thread panicked".to_string())?
+    } else { go() };
     let image = match res { Err(p) => Err(format!("PANIC: {p}")), Ok(Err(e)) => Err(e), Ok(Ok(img)) => Ok(img) };
     let world = world.ok_or_else(|| format!("no world captured (dump result: {:?})", image.as_ref().err()))?;
     Ok((image, world, events))
@@ -249,13 +259,27 @@ pub fn run_reuse(a: &Args) {
                    plan.scen.threads.truncate(4); while plan.scen.threads.len() < 3 { plan.scen.threads.push(ThreadSpec { kind: Kind::Block, sp_off: 0x800, pages: 2, name: None, at: None }); }
                    for t in plan.scen.threads.iter_mut() { t.kind = Kind::Block; t.at = None; t.sp_off = 0x800; }
                    plan.scen.lines.retain(|l| !l.starts_with("poke")); plan.scen.lines.push(format!("poke 0 64 0 {}", 0x1800)); plan.scen.lines.push(format!("poke 2 128 0 {}", 0x2000 + 8)); }
-        let exiter = if !split && !grow && !held && !supplied && !retarget && case_idx != 1 && rng.chance(1, 2) { plan.scen.threads.push(ThreadSpec { kind: Kind::Exiter, sp_off: 0, pages: 2, name: Some(b"exiter".to_vec()), at: None }); Some(plan.scen.threads.len() - 1) } else { None };
+        // and another: between two requests the target replaces the module mapped at a fixed address by a different file (a plugin
+        // reloaded): the second request must name the new module with the NEW module's identifier
+        let swap = case_idx == 6;
+        let mut swap_paths: Option<(String, String)> = None;
+        if swap {
+            plan.crash = 0; plan.skip = 0; plan.blame_late = false; plan.limit = None;
+            std::fs::create_dir_all(&work).ok();
+            let mk = |tag: u8| -> String { let id: Vec<u8> = (0..20).map(|i| tag.wrapping_mul(17).wrapping_add(i)).collect();
+                let img = crate::c08::synth_so(&vec![tag; 64], Some(&id), None); let p = format!("{work}/swap-{}-{tag}.so", std::process::id()); std::fs::write(&p, &img).ok(); p };
+            let (pa, pb) = (mk(1), mk(2));
+            let hex = |p: &str| p.bytes().map(|b| format!("{b:02x}")).collect::<String>();
+            plan.scen.lines.push(format!("filexat 30000000 {} 0 1 r-x", hex(&pa)));
+            swap_paths = Some((hex(&pa), hex(&pb)));
+        }
+        let exiter = if !swap && !split && !grow && !held && !supplied && !retarget && case_idx != 1 && rng.chance(1, 2) { plan.scen.threads.push(ThreadSpec { kind: Kind::Exiter, sp_off: 0, pages: 2, name: Some(b"exiter".to_vec()), at: None }); Some(plan.scen.threads.len() - 1) } else { None };
         let mut target = match Target::spawn(&plan.scen, &work) { Ok(t) => t, Err(e) => { out.notes.push(format!("case skipped: {e}")); continue; } };
         let cfg_seed = rng.next();
         let mut cfg = configure(&mut Rng(cfg_seed), &plan, &target);
         // another fixed history: between two requests the target replaces its program image (same pid, new auxiliary vector)
         let reexec = case_idx == 1;
-        let ndumps = if grow || reexec || held || supplied || retarget || split { 2 } else { rng.range(2, if a.tier == "thorough" { 5 } else { 3 }) };
+        let ndumps = if grow || reexec || held || supplied || retarget || split || swap { 2 } else { rng.range(2, if a.tier == "thorough" { 5 } else { 3 }) };
         out.count(&format!("dumps.{ndumps}"));
         for k in 0..ndumps {
             if k == 1 && grow {
@@ -279,9 +303,10 @@ pub fn run_reuse(a: &Args) {
             if held && k == 0 { unsafe { let t = target.tids[0]; libc::ptrace(libc::PTRACE_SEIZE, t, 0, 0); libc::ptrace(libc::PTRACE_INTERRUPT, t, 0, 0); let mut st = 0; libc::waitpid(t, &mut st, libc::__WALL); } out.count("history.blamed_thread_held_during_first_request"); }
             if held && k == 1 { unsafe { libc::ptrace(libc::PTRACE_DETACH, target.tids[0], 0, 0); } target.settle(); }
             // between the two requests the caller points the principal mapping at an address that lies in no mapping
+            if swap && k == 1 { if let Some((_, pb)) = &swap_paths { let r = target.cmd(&format!("f 30000000 {pb} 1")); target.settle(); out.count(if r.trim() == "REMAP 0" { "history.module_replaced_at_the_same_address_between_requests" } else { "history.module_swap_failed" }); } }
             if split && k == 1 { let r = target.cmd("m 0 0 1 r--"); target.settle(); out.count(if r.trim() == "MPROTECT 0" { "history.principal_mapping_split_between_requests" } else { "history.split_failed" }); }
             if retarget && k == 1 { cfg.writer.set_principal_mapping_address(0x10); cfg.principal = Some(0x10); out.count("history.principal_address_changed_between_requests"); }
-            if !split && !grow && !reexec && !held && !supplied && !retarget && k + 1 < ndumps && rng.chance(1, 3) {
+            if !swap && !split && !grow && !reexec && !held && !supplied && !retarget && k + 1 < ndumps && rng.chance(1, 3) {
                 let fail_at = rng.range(4, 12) as usize;
                 match dump_once_failing(&mut cfg, target.pid, Some(fail_at)) { Ok((Err(_), _, _)) => { out.count("history.failed_request"); } Ok((Ok(_), _, _)) => { out.count("history.failure_not_reached"); } Err(_) => {} }
                 continue;
@@ -375,7 +400,7 @@ pub fn emit(out: &mut Out, lv: &Live, aspects: &[String]) {
         let is_crash = crash_tid == Some(t.tid as i32);
         let sp = if is_crash { lv.crash.as_ref().unwrap().get_stack_pointer() as u64 } else { match w.threads.iter().find(|x| x.tid == t.tid as i32).and_then(|x| x.regs) { Some(r) => r.rsp, None => continue } };
         let ip = if is_crash { lv.crash.as_ref().unwrap().get_instruction_pointer() as u64 } else { w.threads.iter().find(|x| x.tid == t.tid as i32).and_then(|x| x.regs).map(|r| r.rip).unwrap_or(0) };
-        if want("region") && lv.plan.skip == 0 {
+        if want("region") && (lv.plan.skip == 0 || (lv.plan.skip == 9 && is_crash)) {
             let mut l = Line::new("tl_region"); l.u(sp).b(lv.plan.limit.is_some()).u(lv.plan.limit.unwrap_or(0)).z(nth).z(idx).b(is_crash); maps_tokens(&mut l, w);
             let mut r = Line::bare();
             if t.stack.loc.size == 0 { r.u(0); } else { r.u(1).u(t.stack.start).u(t.stack.loc.size as u64); }
@@ -517,6 +542,15 @@ pub fn run(a: &Args) {
         // one fixed C07 shape per run: the zero page is mapped (a privileged or legacy target) and the crash instruction pointer lies
         // in its first 128 bytes - the window is clipped at address 0
         if focus == "c07" && case_idx == 3 { plan.scen.lines.push("anonat 0 1 rwx".into()); plan.crash = 1; plan.skip = 0; plan.blame_late = false; plan.crash_ip = Some(*rng.pick(&[0x10u64, 0, 127, 1])); out.count("shape.zero_page_mapped_crash_ip_below_128"); }
+        // one fixed C07 run: a sandboxed reporter - the dumping thread's seccomp filter refuses process_vm_readv and pread64, every
+        // memory read falls back to PTRACE_PEEKDATA - with application regions shorter than a word at every position in a word
+        let sandboxed = focus == "c07" && case_idx == 4;
+        if sandboxed {
+            plan.scen.lines.retain(|l| !l.starts_with("appmem") && !l.starts_with("anon 320")); plan.napp = 0; plan.skip = 0; plan.limit = None; plan.sanitize = false; plan.blame_late = false; if plan.crash >= 2 { plan.crash = 1; }
+            plan.scen.threads.truncate(3); for t in plan.scen.threads.iter_mut() { t.pages = t.pages.min(3) & 0xffff; }
+            let mut k = 0u64; for r in 0..8u64 { for len in [1u64, 3, 4, 7] { plan.scen.lines.push(format!("appmem 0 {} {len}", 64 + 16 * k + r)); plan.napp += 1; k += 1; } }
+            SANDBOXED_DUMPER.store(true, std::sync::atomic::Ordering::SeqCst); out.count("run.sandboxed_reporter_ptrace_fallback_reads");
+        }
         let gone = focus == "c05" && case_idx == 1;
         if gone { plan.crash = 0; plan.skip = 0; plan.scen.threads.push(ThreadSpec { kind: Kind::Block, sp_off: 0x800, pages: 2, name: Some(b"taken".to_vec()), at: None }); plan.blame_idx = Some(plan.scen.threads.len() - 1); plan.exit_between = plan.blame_idx; }
         // one fixed C04 run: no group stop before the attach (StopProcess fail point), so that the writer really waits for each
@@ -528,6 +562,9 @@ pub fn run(a: &Args) {
         if let Some(c) = client.as_mut() { c.set_enabled(minidump_writer::FailSpotName::StopProcess, true); if interrupted { INTERRUPT_DUMPER.store(true, std::sync::atomic::Ordering::SeqCst); out.count("run.dumping_thread_interrupted_all_along"); } }
         // one fixed C20 history: the writer has served a request with a principal address inside a mapping; the caller then names an
         // address that lies in no mapping - every stack is now unreferenced
+        // a fixed C20 shape: the crash thread's stack pointer lies in memory that is readable but not writable, its instruction
+        // pointer inside the principal mapping: the stack is found (a stack needs to be readable, not writable) and kept
+        if focus == "c20" && case_idx == 7 { plan.skip = 9; plan.crash = 1; plan.limit = None; plan.blame_late = false; plan.sanitize = false; plan.blame_idx = None; out.count("shape.crash_stack_pointer_in_read_only_memory"); }
         if focus == "c20" && case_idx == 5 { plan.skip = 7; plan.crash = 0; plan.limit = None; plan.blame_late = false; plan.retarget_principal = Some(0x10); out.count("history.principal_retargeted_after_a_request"); }
         let fail_first = if gone || case_idx % 4 == 2 { out.count("history.abandoned_request_first"); Some(rng.range(4, 14) as usize) } else { None };
         match run_plan_hist(&mut rng, plan, &work, fail_first) {
@@ -535,6 +572,7 @@ pub fn run(a: &Args) {
             Err(e) => { out.notes.push(format!("case skipped: {e}")); out.count("case.skipped"); }
         }
         if let Some(c) = client.as_mut() { c.set_enabled(minidump_writer::FailSpotName::StopProcess, false); INTERRUPT_DUMPER.store(false, std::sync::atomic::Ordering::SeqCst); }
+        SANDBOXED_DUMPER.store(false, std::sync::atomic::Ordering::SeqCst);
         drop(client);
     }
     out.assumptions.push("what a stopped thread 'actually had' is what the harness reads itself with PTRACE_GETREGS/GETFPREGS and /proc/<pid>/mem inside the same suspended window (kernel interfaces trusted)".into());
